@@ -28,6 +28,8 @@ type refRetry struct {
 	code      byte
 	datagrams int
 	validRsp  int // replies that decoded to a message (per C18: responses counter)
+	rspBusy   int // of those, replies carrying Node Busy (C0h): counted under that code's own label
+	rspTmo    int // of those, replies carrying Timeout (C3h)
 	ctxDone   bool
 	bodyShort bool // the final reply's body does not decode as the command's response
 }
@@ -98,6 +100,12 @@ func (d *vRetryDriver) reply(attempt int, req []byte) ([]byte, error) {
 		vAssume(cc != 0xC3)
 	}
 	d.ref.validRsp++
+	if o-oReply == 1 {
+		d.ref.rspBusy++
+	}
+	if o-oReply == 2 {
+		d.ref.rspTmo++
+	}
 	if cc != 0xC0 && cc != 0xC3 {
 		d.ref.finished, d.ref.code = true, cc
 	}
@@ -140,6 +148,8 @@ func (d *vRetryDriver) vCheckMetrics(name string, err error, sent int) {
 	}
 	vAssert(vMetric("bmc_command_retries_total") == retries, "c18-retries-are-transmissions-beyond-the-first")
 	vAssert(vMetric("bmc_command_responses_total") == d.ref.validRsp, "c18-responses-are-valid-replies")
+	vAssert(vMetricL("bmc_command_responses_total", ipmi.CompletionCodeNodeBusy.String()) == d.ref.rspBusy, "c18-node-busy-replies-counted-under-their-own-code")
+	vAssert(vMetricL("bmc_command_responses_total", ipmi.CompletionCodeTimeout.String()) == d.ref.rspTmo, "c18-timeout-replies-counted-under-their-own-code")
 }
 
 // ---- session-less ----
